@@ -23,16 +23,18 @@ struct Report {
     int copies = -1, moves = -1;
 };
 static Report g_rep;
+static Tracked g_ret(99);
 static const void* g_nv_addr = nullptr;
 static std::shared_ptr<void> g_owner;
 template<class A, class B> static bool same_owner(const std::shared_ptr<A>& a, const std::shared_ptr<B>& b) {
     return !a.owner_before(b) && !b.owner_before(a);
 }
-static void print_report(const char* kind, const char* shape, int pos, const char* cat, bool ret_ok) {
-    std::printf("{\"e\":\"args\",\"sc\":{\"kind\":\"%s\",\"shape\":\"%s\",\"pos\":%d,\"cat\":\"%s\"},\"ran\":%s,"
-                "\"r\":{\"self_ok\":%s,\"oid_ok\":%s,\"owner_ok\":%s,\"nv_ok\":%s,\"ret_ok\":%s,\"copies\":%d,\"moves\":%d}}\n",
-                kind, shape, pos, cat, g_rep.ran ? "true" : "false", g_rep.self_ok ? "true" : "false", g_rep.oid_ok ? "true" : "false",
-                g_rep.owner_ok ? "true" : "false", g_rep.nv_ok ? "true" : "false", ret_ok ? "true" : "false", g_rep.copies, g_rep.moves);
+static void print_report(const char* kind, const char* shape, int pos, const char* cat, const char* ret, bool ret_ok) {
+    std::printf("{\"e\":\"args\",\"sc\":{\"kind\":\"%s\",\"shape\":\"%s\",\"pos\":%d,\"cat\":\"%s\",\"ret\":\"%s\"},\"ran\":%s,"
+                "\"r\":{\"self_ok\":%s,\"oid_ok\":%s,\"owner_ok\":%s,\"nv_ok\":%s,\"ret_ok\":%s,\"copies\":%d,\"moves\":%d,\"rcopies\":%d}}\n",
+                kind, shape, pos, cat, ret, g_rep.ran ? "true" : "false", g_rep.self_ok ? "true" : "false", g_rep.oid_ok ? "true" : "false",
+                g_rep.owner_ok ? "true" : "false", g_rep.nv_ok ? "true" : "false", ret_ok ? "true" : "false", g_rep.copies, g_rep.moves,
+                g_rep.ran ? Tracked::copies - g_rep.copies : -1);
 }
 '''
 
@@ -74,8 +76,19 @@ CATS = {
 }
 
 
-def scenario(idx, kind, shape, pos, cat):
+RETS = {
+    # ret: (return type, return statement of the definition, caller statement computing `bool ok`)
+    "val": ("std::string", 'return "ret-{i}";', 'std::string r = f({a}); ok = r == "ret-{i}";'),
+    "void": ("void", "", "f({a}); ok = true;"),
+    "ref": ("Tracked&", "return g_ret;", "Tracked& r = f({a}); ok = &r == &g_ret;"),
+    "moveonly": ("std::unique_ptr<int>", "return std::make_unique<int>({i});", "std::unique_ptr<int> r = f({a}); ok = r && *r == {i};"),
+    "tracked": ("Tracked", "return Tracked({i});", "Tracked r = f({a}); ok = r.v == {i};"),
+}
+
+
+def scenario(idx, kind, shape, pos, cat, ret="val"):
     ns = "a%d" % idx
+    rtype, rstmt, rcall = RETS[ret]
     decl, dname = SHAPES[shape]
     D = dname or "B"
     mparam, dparam, deref, callexpr = KINDS[kind]
@@ -93,8 +106,8 @@ def scenario(idx, kind, shape, pos, cat):
     if decl:
         o.append(decl)
     o.append("register_classes(%s);" % ", ".join(["B"] + (["D"] if dname else []) + (["Mid"] if shape == "two" else [])))
-    o.append("declare_method(std::string, f, (%s));" % ", ".join(mparams))
-    o.append("define_method(std::string, f, (%s)) {" % ", ".join(dparams))
+    o.append("declare_method(%s, f, (%s));" % (rtype, ", ".join(mparams)))
+    o.append("define_method(%s, f, (%s)) {" % (rtype, ", ".join(dparams)))
     o.append("    g_rep.ran = true;")
     o.append("    g_rep.copies = Tracked::copies; g_rep.moves = Tracked::moves;")
     o.append("    %s& d = %s;" % (D, deref))
@@ -104,7 +117,7 @@ def scenario(idx, kind, shape, pos, cat):
         getsp = "a" if kind not in ("vshared", "cvshared") else "a.get()"
         o.append("    g_rep.owner_ok = same_owner(%s, g_owner);" % getsp)
     o.append("    g_rep.nv_ok = %s;" % nvcheck)
-    o.append('    return "ret-%d";' % idx)
+    o.append("    " + rstmt.replace("{i}", str(idx)))
     o.append("}")
     o.append("void run() {")
     o.append("    g_rep = Report();")
@@ -118,9 +131,9 @@ def scenario(idx, kind, shape, pos, cat):
     if setup:
         o.append("    " + setup)
     o.append("    Tracked::copies = 0; Tracked::moves = 0;")
-    o.append("    std::string r;")
-    o.append("    try { r = f(%s); } catch (...) { }" % ", ".join(args))
-    o.append('    print_report("%s", "%s", %d, "%s", r == "ret-%d");' % (kind, shape, pos, cat, idx))
+    o.append("    bool ok = false;")
+    o.append("    try { %s } catch (...) { }" % rcall.replace("{a}", ", ".join(args)).replace("{i}", str(idx)))
+    o.append('    print_report("%s", "%s", %d, "%s", "%s", ok);' % (kind, shape, pos, cat, ret))
     o.append("    g_owner.reset();")
     o.append("}")
     o.append("} // namespace")
@@ -129,8 +142,8 @@ def scenario(idx, kind, shape, pos, cat):
 
 def program(name, scenarios):
     o = [gen.PRELUDE, COMMON]
-    for idx, (kind, shape, pos, cat) in scenarios:
-        o.append(scenario(idx, kind, shape, pos, cat))
+    for idx, sc in scenarios:
+        o.append(scenario(idx, *sc))
     o.append("int main() {")
     o.append('    std::printf("{\\"e\\":\\"reset\\",\\"script\\":\\"%s\\",\\"bindings\\":[\\"gen\\"]}\\n");' % name)
     o.append("    yorel::yomm2::update();")
